@@ -18,6 +18,8 @@ import Gonuts.Model.Token
     token.front  "hexbytes"                     -> ((v4 STAGE) (v3 STAGE)): what DecodeTokenV4 / DecodeTokenV3 do before Unmarshal
                                                    STAGE ::= (panic HI LEN) | (err invalid-v3) | (err invalid-v4)
                                                            | (err (b64err N)) | (payload "hex")
+    token.check-v3 token                        -> (ok) | (err invalid-v3): the check of DecodeTokenV3 after Unmarshal
+    token.front-old "hexbytes"                  -> as token.front, for the code before the F9 fix
     token.hexdec "s" -> (ok "hex") | (err odd) | (err byte N)     token.hexenc "hex" -> "s"
     token.b64dec BOOL "hexbytes" -> (ok "hex") | (err N)          token.b64enc BOOL "hex" -> "hex"
     token.lower  "s" -> "lowerHex s"
@@ -176,6 +178,18 @@ def handle (cmd : String) (args : List Sexp) : Option Sexp :=
   | "token.front", [s] => do
     let s ← bytes? s
     some (.list [.list [.atom "v4", ofFront (frontV4 s)], .list [.atom "v3", ofFront (frontV3 s)]])
+  | "token.check-v3", [t] => do
+    match ← token? t with
+    | .v3 t3 =>
+      match checkV3 t3 with
+      | .ok _ => some (.list [.atom "ok"])
+      | .err e => some (.list [.atom "err", ofDecErr e])
+      | .panic _ => none
+    | .v4 _ => none
+  | "token.front-old", [s] => do
+    let s ← bytes? s
+    some (.list [.list [.atom "v4", ofFront (frontOld prefixV4 .invalidTokenV4 s)],
+                 .list [.atom "v3", ofFront (frontOld prefixV3 .invalidTokenV3 s)]])
   | "token.hexdec", [s] => do
     match hexDecode (← str? s) with
     | .ok b => some (.list [.atom "ok", ofBytes b])
